@@ -186,6 +186,64 @@ func (ff *FuncFacts) Unphi(v ssa.Value) ssa.Value {
 	return v
 }
 
+// UnphiAt is Unphi with what is known at instruction `at` about the sibling merges of the same block
+// taken into account: `x, err := r0, r1` after a spliced helper merges value and error in one block,
+// and on the path where the error merge is known to be nil (non-nil) only the edges whose error
+// operand can be nil (non-nil) are live — the value merge is read along the same edges.
+func (ff *FuncFacts) UnphiAt(v ssa.Value, at ssa.Instruction) ssa.Value {
+	fs := ff.AtInstr(at)
+	for depth := 0; depth < 4; depth++ {
+		ph, ok := v.(*ssa.Phi)
+		if !ok {
+			return v
+		}
+		dead := map[int]bool{}
+		for _, in := range ph.Block().Instrs {
+			q, isPhi := in.(*ssa.Phi)
+			if !isPhi {
+				break
+			}
+			if q == ph {
+				continue
+			}
+			qt := ff.T.Of(q)
+			isNil := fs.Has(EQ(qt, "nil")) || fs.Has(EQ("nil", qt))
+			notNil := fs.Has(NE(qt, "nil")) || fs.Has(NE("nil", qt))
+			if !isNil && !notNil {
+				continue
+			}
+			for i, e := range q.Edges {
+				k, isConst := e.(*ssa.Const)
+				opNil := isConst && k.IsNil()
+				et := ff.T.Of(e)
+				ef := ff.EdgeFacts(ph.Block().Preds[i], ph.Block())
+				opNotNil := !opNil && (ef.Has(NE(et, "nil")) || ef.Has(NE("nil", et)))
+				if (isNil && opNotNil) || (notNil && opNil) {
+					dead[i] = true
+				}
+			}
+		}
+		var only ssa.Value
+		n := 0
+		for i, e := range ph.Edges {
+			pred := ph.Block().Preds[i]
+			if dead[i] || !ff.Reachable(pred) || ff.Removed(pred, ph.Block()) || contradictoryFacts(ff.EdgeFacts(pred, ph.Block())) {
+				continue
+			}
+			if n > 0 && e != only {
+				return v
+			}
+			only = e
+			n++
+		}
+		if n == 0 || only == nil {
+			return v
+		}
+		v = only
+	}
+	return v
+}
+
 func contradictoryFacts(fs FactSet) bool {
 	for _, f := range fs {
 		if fs.Has(f.Neg()) {
